@@ -1,5 +1,5 @@
 """Specification growth beyond the listed properties (DESIGN §8 / §16.7): SYNC counter, TIME framing,
-active node search, store / restore, LSS identify services, load_configuration, CiA 402 homing / fault reset.  Not registered in MANIFEST.json (there
+active node search, store / restore, LSS identify services, load_configuration, CiA 402 homing / fault reset, EPF import.  Not registered in MANIFEST.json (there
 is no listed property to report against); run manually: /venv/bin/python -m checks.extras"""
 import random
 import sys
@@ -56,6 +56,15 @@ def main():
         print("HOMING-REJECT", r.why, str(r.event)[:200], str(cases[r.index])[:300])
     print(f"homing: {val.traces} traces, {val.events} events, {len(val.rejects)} rejected")
     bad += len(val.rejects)
+    # EPF (XML) import: one row per generated parameter, judged by Table_Epf
+    cases = [{"seed": rng.randrange(1 << 30), "how": ["path", "fileobj", "element"][i % 3]} for i in range(150)]
+    res = run_cases("harness.drv_epf:run_case", cases, jobs=8, timeout=120)
+    rows = [r for x in res for r in x["rows"]]
+    badrows, _ = tlc.check_table("Table_Epf", rows, jobs=2)
+    for i, why in badrows[:10]:
+        print("EPF-BADROW", why, str(rows[i])[:400])
+    print(f"epf import: {len(rows)} parameters, {len(badrows)} bad rows")
+    bad += len(badrows)
     return 1 if bad else 0
 
 
